@@ -80,6 +80,7 @@ class SimRaw(io.RawIOBase):
         self.plan = plan or HandlePlan()
         self.label = label or name
         self.frozen = False
+        self._fd = world.fs.alloc_fd(inode) if getattr(world, "fs", None) is not None else -1
         self.n_write = 0  # raw write calls so far
         self.n_read = 0  # raw readinto calls so far
         self.writes = []  # (offset, length persisted, length asked) of every raw write call
@@ -97,6 +98,12 @@ class SimRaw(io.RawIOBase):
 
     def isatty(self):
         return False
+
+    def fileno(self):
+        # a simulated descriptor number: only the simulator's own os.fstat proxy knows it
+        if self._fd < 0:
+            raise io.UnsupportedOperation("fileno")
+        return self._fd
 
     # -- positioning -----------------------------------------------------------------------
     def seek(self, off, whence=0):
@@ -227,6 +234,8 @@ class SimFS:
         self.read_buffer_size = io.DEFAULT_BUFFER_SIZE
         self.open_counts = {}
         self.events = []  # ("create"|"overwrite"|"rename"|"truncate", ...)
+        self.next_fd = 1000  # simulated descriptor numbers (a scenario may start at 1: "stdout was closed")
+        self.fds = {}  # fd -> Inode
         self.inject = {}  # one-shot directory-level faults: {"rename": errno name, "open_w": errno name}
 
     # -- helpers ---------------------------------------------------------------------------
@@ -235,6 +244,20 @@ class SimFS:
         if isinstance(path, _os.PathLike):
             path = _os.fspath(path)
         return posixpath.normpath(path)
+
+    def alloc_fd(self, inode):
+        fd = self.next_fd
+        self.next_fd += 1
+        if self.next_fd == 2:
+            self.next_fd = 3  # 2 is stderr
+        self.fds[fd] = inode
+        return fd
+
+    def fstat(self, fd):
+        import stat as _stat
+
+        ino = self.fds[fd]
+        return _os.stat_result((_stat.S_IFREG | 0o644, ino.ino, 1, 1, 0, 0, len(ino.data), 0, 0, 0))
 
     def new_inode(self, data=b""):
         self._ino += 1
